@@ -1157,6 +1157,8 @@ def check_c14(c, af, a, mf):
         fid = None
         if oc == "abort" and isinstance(mf, dict) and mf.get("outcome") == "abort" and block_ref_cycle(c["adef"]):
             fid = "F13-block-ref-inside-its-own-target"
+        if oc == "panic" and af.get("site") == "invalid_ident" and agree(af, mf):
+            fid = "F22-name-that-is-no-identifier-panics"
         return {"why": f"naming / ref input makes the generator {oc} ({af.get('site')}) instead of reporting an error; oracle: {reasons}", "finding": fid}
     if ok:
         if oc == "error" and af.get("kind") in NAMING_KINDS:
